@@ -84,8 +84,14 @@ def oracle(results, out):
                 out.append(dict(kind="returned-with-breach", input=inp, detail="final %s failing %s" % (p.sequence, failing)))
         elif info["outcome"] != "NoSolution" and not info["outcome"].startswith("fault:7"):
             exc = info.get("exception")
-            out.append(dict(kind="wrong-exception:%s" % (type(exc).__name__ if exc is not None else info["outcome"]),
-                            input=inp, detail=repr(exc)[:300]))
+            kind = "wrong-exception:%s" % (type(exc).__name__ if exc is not None else info["outcome"])
+            cons = case["desc"]["constraints"]
+            if isinstance(exc, RecursionError) and any(c["kind"] == "insert" for c in cons) and \
+                    any(c["kind"] == "user" and c.get("heuristic") for c in cons):
+                # the recorded finding: the pattern-insertion heuristic and another specification's resolution heuristic
+                # undo each other without bound
+                kind = "wrong-exception:RecursionError:insertion-vs-user-heuristic"
+            out.append(dict(kind=kind, input=inp, detail=repr(exc)[:300]))
     return n
 
 
